@@ -35,17 +35,32 @@ def _(self, data: Bytes, values: Opt(Val)) -> Bytes:
     ensures(result == data)
 
 
+@contract("asn1tools/codecs/compiler.py", "clean_bit_string_value", props=["C03", "C01"])
+def _(value: Tup(Bytes, Nat), has_named_bits: Bool) -> Tup(ByteArray, Nat):
+    # the value with its unused bits cleared; with a named bit list also without trailing zero bits (X.690 11.2.2;
+    # the removal itself is the assumed contract of rstrip_bit_string_zeros, bytes.rstrip is not modelled)
+    requires(len(value[0]) >= (value[1] + 7) // 8)
+    ensures(len(result[0]) == (result[1] + 7) // 8)
+    ensures(implies(not has_named_bits, result[1] == value[1]))
+    ensures(len(result[0]) <= (value[1] + 7) // 8)
+
+
 @contract("BitString.encode", props=["C03", "C01"])
 def _(self, data: Tup(Bytes, Nat), encoded: ByteArray, values: Opt(Val)):
     requires(self.tag is not None)
     requires(len(data[0]) >= (data[1] + 7) // 8)
     assumes("no contents of 2**1008 octets or more exist (memory)", data[1] < 2 ** 1000)
     assigns(encoded)
+    # g_n: the number of bits that is encoded -- the value's own for a plain BIT STRING, the cleaned one (trailing zero
+    # bits removed, X.690 11.2.2) when the type has a named bit list
+    ghost_init(g_n=0)
+    at_stmt("number_of_bytes, number_of_rest_bits = divmod(data[1], 8)", set=dict(g_n=data[1]))
+    ensures(implies(not self.has_named_bits, g_n == data[1]))
     # cut point just before the TLV is written: unused-bits count and number of contents octets (X.690 8.6.2).
     # The masking of the last octet is proved on ber.BitString.encode_content (the same algorithm); stated on this copy of
     # the code it made the sequence queries exceed every budget, so it is NOT under contract here.
     at_stmt("encoded.extend(self.tag)",
-            check=[number_of_unused_bits == (8 - old(data)[1] % 8) % 8, len(data) == (old(data)[1] + 7) // 8])
+            check=[number_of_unused_bits == (8 - g_n % 8) % 8, len(data) == (g_n + 7) // 8])
     ensures(list(encoded[:len(old(encoded))]) == list(old(encoded))
             and list(encoded[len(old(encoded)):len(old(encoded)) + len(self.tag)]) == list(self.tag))
-    ensures(len(encoded) >= len(old(encoded)) + len(self.tag) + 2 + (data[1] + 7) // 8)
+    ensures(len(encoded) >= len(old(encoded)) + len(self.tag) + 2 + (g_n + 7) // 8)
